@@ -64,3 +64,47 @@ Proof.
   - now apply delta_exactb_sound.
   - now apply (cum_totalb_sound _ []).
 Qed.
+
+(** * Completed concurrent histories: the checker implies the Prop reading *)
+Lemma pval_notin k p : ~ In k (keys_of p) -> pval k p = 0.
+Proof. intro H. unfold pval. now rewrite pget_notin. Qed.
+
+Lemma sum_outs_notin k outs : ~ In k (flat_map keys_of outs) -> sum_outs k outs = 0.
+Proof.
+  unfold sum_outs. induction outs as [|p r IH]; intro H; [reflexivity|].
+  cbn [fold_right flat_map] in *. rewrite pval_notin, IH; [reflexivity| |];
+    intro Hx; apply H; apply in_or_app; [now right | now left].
+Qed.
+
+Lemma total_notin k c : ~ In k (ckeys c) -> total k c = 0.
+Proof. intro H. unfold total. now rewrite cyc_total_notin. Qed.
+
+(** delta reader: the delivered values add up to the totals recorded, for every attribute set;
+    cumulative reader: the last delivery shows exactly the totals *)
+Definition ConcOk (delta : bool) (adds : list (skey * Z)) (outs : list points) : Prop :=
+  if delta then forall k, sum_outs k outs = total k adds
+  else match rev outs with
+       | [] => adds = []
+       | last :: _ => forall k, pget k last = one (cyc_total k adds)
+       end.
+
+Theorem conc_stream_ok_sound delta nonneg adds outs :
+  conc_stream_ok delta nonneg adds outs = true -> ConcOk delta adds outs.
+Proof.
+  unfold conc_stream_ok, ConcOk. intro H. apply andb_true_iff in H as [H Hc]. apply andb_true_iff in H as [_ Hsub].
+  rewrite forallb_forall in Hsub.
+  destruct delta.
+  - rewrite forallb_forall in Hc. intro k.
+    destruct (in_dec_N k (ckeys adds ++ flat_map keys_of outs)) as [Hin|Hn].
+    + apply Z.eqb_eq. now apply Hc.
+    + rewrite sum_outs_notin, total_notin; [reflexivity| |]; intro Hx; apply Hn; apply in_or_app; auto.
+  - destruct (rev outs) as [|last r] eqn:Er.
+    + destruct adds; [reflexivity | discriminate].
+    + apply andb_true_iff in Hc as [Hc _]. rewrite forallb_forall in Hc. intro k.
+      destruct (in_dec_N k (ckeys adds ++ flat_map keys_of outs)) as [Hin|Hn].
+      * apply ovec_eqb_eq. now apply Hc.
+      * rewrite cyc_total_notin by (intro Hx; apply Hn; apply in_or_app; now left).
+        apply pget_notin. intro Hx. apply Hn. apply in_or_app. right.
+        apply in_flat_map. exists last. split; [|exact Hx].
+        apply in_rev. rewrite Er. now left.
+Qed.
